@@ -156,7 +156,9 @@ BinWellFormed(A) ==
     /\ A.n >= 0 /\ Len(A.ptr) = A.n + 1 /\ A.ptr[1] = 0 /\ Monotone(A.ptr)
     /\ Len(A.col) = A.ptr[A.n + 1] /\ Len(A.val) = Len(A.col)
     /\ \A p \in 1..Len(A.col) : A.col[p] >= 0
-BinDenseWellFormed(A) == A.n >= 0 /\ A.m >= 0 /\ Len(A.val) = A.n * A.m
+\* (n * m is never formed: a damaged header may announce sizes whose product overflows TLC's integers)
+SizesMatch(n, m, len) == IF n = 0 \/ m = 0 THEN len = 0 ELSE (len % m = 0 /\ len \div m = n)
+BinDenseWellFormed(A) == A.n >= 0 /\ A.m >= 0 /\ SizesMatch(A.n, A.m, Len(A.val))
 
 BinSlice(A, rb, re) == [FromRows(re - rb, 0, [r \in 1..(re - rb) |-> RowSeq(A, rb + r - 1)]) EXCEPT !.m = A.m]
 BinSliceOK(dense, full, part, rb, re) ==
